@@ -257,20 +257,25 @@ fn main() {
 }
 
 fn load_known(vdir: &std::path::Path, id: &str) -> Vec<Json> {
-    let path = vdir.join("known_findings.json");
-    let Ok(text) = std::fs::read_to_string(&path) else { return Vec::new() };
-    let j = match json::parse(&text) {
-        Ok(j) => j,
-        Err(e) => {
-            eprintln!("known_findings.json does not parse: {}", e);
-            std::process::exit(2);
-        }
-    };
+    // /verif/known_findings.json plus one optional file per property under /verif/known_findings.d/
+    let mut paths = vec![vdir.join("known_findings.json")];
+    paths.push(vdir.join("known_findings.d").join(format!("{}.json", id)));
     let mut out = Vec::new();
-    if let Some(list) = j.get("findings").and_then(|f| f.as_arr()) {
-        for f in list {
-            if f.get_str("property") == Some(id) {
-                out.push(f.clone());
+    for path in paths {
+        let Ok(text) = std::fs::read_to_string(&path) else { continue };
+        let j = match json::parse(&text) {
+            Ok(j) => j,
+            Err(e) => {
+                eprintln!("{} does not parse: {}", path.display(), e);
+                println!("INCONCLUSIVE property={} reason=known findings file does not parse", id);
+                std::process::exit(2);
+            }
+        };
+        if let Some(list) = j.get("findings").and_then(|f| f.as_arr()) {
+            for f in list {
+                if f.get_str("property") == Some(id) {
+                    out.push(f.clone());
+                }
             }
         }
     }
